@@ -187,7 +187,7 @@ def parse_steps(line):
 def check(run, replay=None):
     tier, seed = run.tier, run.seed
     rng = random.Random(seed * 7919 + 7)
-    C.standard_coq_phase(run, CID)
+    C.standard_coq_phase(run, CID, gens=("globals",))
     ok, msg = C.ensure_ocaml()
     if not ok:
         run.finding("build:ocaml", "broken-obligation", msg, {})
